@@ -409,7 +409,7 @@ def check_fractions(f, S, A, C, d, donor):
     return bad
 
 
-def neutrality_problem(species, ne, n):
+def neutrality_problem(species, ne, n, tol=1e-9):
     """neutrality of the matched element in *relative* terms.  e = n_e minus the electrons of the given species (subtracted in
     the order the code subtracts them, so e is the same double); returns None or a description.
     e > 0: sum_z z n_z / e - 1 must vanish (1e-9), whatever the mean charge of the element; e <= 0: all densities zero."""
@@ -422,7 +422,7 @@ def neutrality_problem(species, ne, n):
     charge = sum(z * x for z, x in enumerate(n))
     if e > 0:
         rel = charge / e - 1.0
-        if abs(rel) > 1e-9:
+        if abs(rel) > tol:
             return ('charge of the matched element %r instead of n_e - given species = %r: (sum Z n + given) / n_e - 1 = %.3g, '
                     'relative to the element\'s own share %.3g' % (charge, e, (charge - e) / ne, rel))
         return None
@@ -583,7 +583,7 @@ def compare_point(ctx, case, out, outs, stream):
             ctx.extra[key] = max(ctx.extra.get(key, 0.0), dev)
 
 
-def mn_charge_agrees(mod, impl):
+def mn_charge_agrees(mod, impl, tol=1e-9):
     """K for neutrality matching, well-conditioned part: the charge carried by the matched element (sum_z z n_z) must agree
     between model and implementation to 1e-9 whatever the mean charge (the per-state comparison loses resolution when the
     element is almost neutral, because both sides divide by the mean charge)"""
@@ -591,7 +591,7 @@ def mn_charge_agrees(mod, impl):
         return False
     cm = sum(z * x for z, x in enumerate(mod))
     ci = sum(z * x for z, x in enumerate(impl))
-    return abs(cm - ci) <= 1e-9 * max(abs(cm), abs(ci))
+    return abs(cm - ci) <= tol * max(abs(cm), abs(ci))
 
 
 def _mn_amplification(n):
@@ -622,7 +622,7 @@ def _val(co, *xs):
 PATTERNS = ('affine', 'flat', 'steps', 'random', 'decay')
 
 
-def gen_field(rng, base, dim, grid, kinds, pattern, as_int=False):
+def gen_field(rng, base, dim, grid, kinds, pattern, as_int=False, dtype='f64'):
     """a profile = dict(kind, co, table, pattern): `co` affine coefficients (functions, or arrays without a table),
     `table` explicit array values (nested like the grid).  Patterns: affine | flat (constant) | steps (piecewise constant,
     two levels, so coordinates repeat) | random | decay (exponentially falling along the first axis)."""
@@ -651,15 +651,24 @@ def gen_field(rng, base, dim, grid, kinds, pattern, as_int=False):
             table = [cell((a,)) for a in range(shape[0])]
         else:
             table = [[cell((a, b)) for b in range(shape[1])] for a in range(shape[0])]
-    f = dict(kind=kind, co=co, table=table, pattern=pattern, as_int=False)
-    if as_int and not isfn:
-        # integer-typed input (python int / integer ndarray): values rounded first, so model and truth see the same numbers
-        r = lambda v: float(max(1, round(v)))      # noqa
+    f = dict(kind=kind, co=co, table=table, pattern=pattern, as_int=False, dtype='f64')
+    if as_int:
+        dtype = 'int'
+    if dtype == 'int' and base * 8 >= 9e18:
+        dtype = 'f64'       # would not fit an int64 array; a python int >= 2**64 as scalar n_e makes HEAD raise (see notes, round 4)
+    if dtype == 'int' and not isfn and kind != 'scalar':
+        probe = dict(kind=kind, co=co, table=table)
+        if max(field_values(probe, grid)) >= 9e18:
+            dtype = 'f64'
+    if dtype in ('int', 'f32') and not isfn:
+        # non-float64 input (python int / np.float32 scalar, integer or float32 ndarray): the values are rounded to what that
+        # type can hold first, so that model, truth and implementation are given the same numbers
+        r = (lambda v: float(max(1, round(v)))) if dtype == 'int' else (lambda v: float(np.float32(v)))      # noqa
         if table is None and kind != 'scalar':
             table = [_val(co, x) for x in grid[0]] if dim == 1 else [[_val(co, x, y) for y in grid[1]] for x in grid[0]]
         if table is not None:
             table = [r(v) for v in table] if dim == 1 else [[r(v) for v in row] for row in table]
-        f.update(co=[r(co[0])] + [0.0] * dim, table=table, as_int=True)
+        f.update(co=[r(co[0])] + [0.0] * dim, table=table, as_int=(dtype == 'int'), dtype=dtype)
     return f
 
 
@@ -678,20 +687,22 @@ def field_values(field, grid):
 def make_rep(env, field, grid):
     """returns (python object handed to cherab, driver tokens) for a field on the grid"""
     kind, co = field['kind'], field['co']
+    dt = field.get('dtype', 'int' if field.get('as_int') else 'f64')
+    npdt = {'f64': np.float64, 'f32': np.float32, 'int': np.int64}[dt]
     if kind == 'scalar':
         v = co[0]
         tok = 's ' + f2b(v)
-        if field.get('as_int'):
-            return int(v), tok
+        if dt == 'int':
+            return (np.int64(v) if (field.get('np_scalar') and v < 9e18) else int(v)), tok
+        if dt == 'f32':
+            return np.float32(v), tok
         return (np.float64(v) if field.get('np_scalar') else v), tok
     if kind == 'arr1':
         vals = field_values(field, grid)
-        arr = np.array(vals, dtype=int) if field.get('as_int') else np.array(vals)
-        return arr, 'a1 %d %s' % (len(vals), fs(vals))
+        return np.array(vals, dtype=npdt), 'a1 %d %s' % (len(vals), fs(vals))
     if kind == 'arr2':
         vals = field_values(field, grid)
-        arr = np.array(vals, dtype=int if field.get('as_int') else float).reshape(len(grid[0]), len(grid[1]))
-        return arr, 'a2 %d %d %s' % (len(grid[0]), len(grid[1]), fs(vals))
+        return np.array(vals, dtype=npdt).reshape(len(grid[0]), len(grid[1])), 'a2 %d %d %s' % (len(grid[0]), len(grid[1]), fs(vals))
     if kind in ('f1', 'f1n'):
         a, b = co[0], co[1]
         if kind == 'f1':
@@ -727,33 +738,51 @@ def gen_profile_spec(rng):
     case['species'] = []
     if case['p'] or case['q']:
         case['p'], case['q'] = rng.uniform(0, 2) / 2e4, rng.uniform(0, 2) / 1e21
+    interp = dim > 0 and rng.random() < 0.4
+    fv_dtype, fv_scalar = [], None
+
+    def axis(n, lo_step, hi_step, dt):
+        """strictly increasing coordinates representable in the coordinate dtype"""
+        if dt in ('int', 'int32'):
+            x, out = rng.randint(0, 3), []
+            for _ in range(n):
+                out.append(float(x))
+                x += rng.randint(1, 3)
+            return out
+        x, out = rng.uniform(0, 0.1), []
+        for _ in range(n):
+            out.append(float(np.float32(x)) if dt == 'f32' else x)
+            x += rng.uniform(lo_step, hi_step)
+        return out
     if dim == 0:
         grid, kinds = [], ['scalar']
     elif dim == 1:
         n = rng.randint(2, 7)
-        xs = sorted(rng.uniform(0, 1.1) for _ in range(n))
-        if min(b - a for a, b in zip(xs, xs[1:])) < 1e-6:
-            xs = [0.1 * i for i in range(n)]
-        grid, kinds = [xs], ['arr1', 'f1', 'f1n']
+        if not interp and rng.random() < 0.12:
+            n = 1                   # one point, free variable given as a bare scalar
+            fv_scalar = rng.choice(['pyint', 'pyfloat', 'np.int64', 'np.float32', 'np.float64'])
+        fv_dtype = [rng.choice(['f64', 'f64', 'int', 'int32', 'f32'])]
+        if fv_scalar:
+            fv_dtype = ['int' if fv_scalar in ('pyint', 'np.int64') else ('f32' if fv_scalar == 'np.float32' else 'f64')]
+        grid, kinds = [axis(n, 0.05, 0.3, fv_dtype[0])], ['arr1', 'f1', 'f1n']
     else:
         n, m = rng.randint(2, 4), rng.randint(2, 4)
-        grid = [[0.05 + 0.3 * i + rng.uniform(0, 0.1) for i in range(n)], [0.3 * i + rng.uniform(0, 0.1) for i in range(m)]]
+        fv_dtype = [rng.choice(['f64', 'f64', 'int', 'int32', 'f32']), rng.choice(['f64', 'f64', 'int', 'f32'])]
+        grid = [axis(n, 0.2, 0.4, fv_dtype[0]), axis(m, 0.2, 0.4, fv_dtype[1])]
         kinds = ['arr2', 'f2']
     mode, pat = gen_patterns(rng, dim)
-    int_te = rng.random() < 0.15
     fields = {}
     for name, base in (('ne', case['ne']), ('te', case['te']), ('nd', case['nD'] or case['ne'] * 0.05), ('dens', case['dens'])):
-        fields[name] = gen_field(rng, base, dim, grid, kinds, pat[name], as_int=(name == 'te' and int_te))
+        fields[name] = gen_field(rng, base, dim, grid, kinds, pat[name], dtype=rng.choice(['f64'] * 6 + ['f32', 'int', 'int']))
         if dim == 0 and rng.random() < 0.3:
             fields[name]['np_scalar'] = True
     donor_given = case['donor'] and rng.random() < 0.85
     isfn = lambda f: f['kind'] in ('f1', 'f1n', 'f2')      # noqa
     which = rng.choice(['frac', 'fd'])
-    interp = dim > 0 and rng.random() < 0.4
     any_fn = isfn(fields['ne']) or isfn(fields['te']) or (donor_given and isfn(fields['nd'])) or (which == 'fd' and isfn(fields['dens']))
     give_fv = dim > 0 and (any_fn or interp or rng.random() < 0.3)
     return dict(case=case, dim=dim, grid=grid, fields=fields, mode=mode, which=which, interp=interp, give_fv=give_fv,
-                fv_as_list=(dim == 2 and rng.random() < 0.5), donor_given=donor_given)
+                fv_as_list=(dim == 2 and rng.random() < 0.5), donor_given=donor_given, fv_dtype=fv_dtype, fv_scalar=fv_scalar)
 
 
 def _legacy_fields(spec):
@@ -769,11 +798,16 @@ def build_profile(env, spec):
         pc.setdefault('mode', 'affine')
     case, dim, grid = spec['case'], spec['dim'], spec['grid']
     fvtok, fv = 'fv0', None
+    npdt = {'f64': np.float64, 'f32': np.float32, 'int': np.int64, 'int32': np.int32}
+    fvd = spec.get('fv_dtype') or ['f64', 'f64']
     if dim == 1 and spec['give_fv']:
-        fvtok, fv = 'fv1 %d %s' % (len(grid[0]), fs(grid[0])), np.array(grid[0])
+        fvtok, fv = 'fv1 %d %s' % (len(grid[0]), fs(grid[0])), np.array(grid[0], dtype=npdt[fvd[0]])
+        if spec.get('fv_scalar'):
+            x = grid[0][0]
+            fv = {'pyint': int(x), 'pyfloat': float(x), 'np.int64': np.int64(x), 'np.float32': np.float32(x), 'np.float64': np.float64(x)}[spec['fv_scalar']]
     elif dim == 2 and spec['give_fv']:
         fvtok = 'fv2 %d %s %d %s' % (len(grid[0]), fs(grid[0]), len(grid[1]), fs(grid[1]))
-        fv = (np.array(grid[0]), np.array(grid[1]))
+        fv = (np.array(grid[0], dtype=npdt[fvd[0]]), np.array(grid[1], dtype=npdt[fvd[1]]))
         if spec['fv_as_list']:
             fv = list(fv)
     objs, toks = {}, {}
@@ -790,6 +824,19 @@ def build_profile(env, spec):
     return pc
 
 
+def snapshot(o):
+    """structural fingerprint of an argument, to detect that a call modified its inputs"""
+    if isinstance(o, np.ndarray):
+        return ('nd', str(o.dtype), o.shape, o.tobytes())
+    if isinstance(o, (list, tuple)):
+        return (type(o).__name__, tuple(id(e) for e in o), tuple(snapshot(e) for e in o))
+    if isinstance(o, dict):
+        return ('dict', tuple((type(k).__name__, int(k)) for k in o.keys()), tuple(snapshot(v) for v in o.values()))
+    if o is None or isinstance(o, (bool, int, float, np.generic)):
+        return ('sc', type(o).__name__, repr(o))
+    return ('obj', id(o))
+
+
 def exec_profile(env, pc):
     """call the implementation; returns (entry name, status, shape | message, [index, charge] array, (n,t) points seen,
     captured lsq_linear calls)"""
@@ -801,6 +848,9 @@ def exec_profile(env, pc):
     nd = pc['objs']['nd'] if pc['donor_given'] else None
     o = pc['objs']
     dim = pc['dim']
+    watched = dict(free_variable=pc['fv'], n_e=o['ne'], t_e=o['te'], tcx_donor_n=nd, element_density=(o['dens'] if pc['which'] == 'fd' else None))
+    before = {k: snapshot(v) for k, v in watched.items()}
+    pc['modified_inputs'] = None
     if pc['interp']:
         if pc['which'] == 'frac':
             fn = ib.interpolators1d_fractional if dim == 1 else ib.interpolators2d_fractional
@@ -825,6 +875,7 @@ def exec_profile(env, pc):
             name = 'from_elementdensity'
             st, r = guarded(ib.from_elementdensity, ad, el, o['dens'], o['ne'], o['te'], donor, nd, case['dq'], free_variable=pc['fv'])
         caps = list(CAP)
+    pc['modified_inputs'] = [k for k, v in watched.items() if snapshot(v) != before[k]]
     if st != 'ok':
         return name, st, r, None, None, caps
     Z = case['Z']
@@ -844,7 +895,7 @@ def truth_at(pc, k):
 
 
 def profile_spec_of(pc):
-    return {k: pc[k] for k in ('case', 'dim', 'grid', 'fields', 'mode', 'which', 'interp', 'give_fv', 'fv_as_list', 'donor_given')}
+    return {k: pc.get(k) for k in ('case', 'dim', 'grid', 'fields', 'mode', 'which', 'interp', 'give_fv', 'fv_as_list', 'donor_given', 'fv_dtype', 'fv_scalar')}
 
 
 def scalar_call(env, case, which, ne, te, nd, donor_given, dens=None, species=None):
@@ -928,6 +979,12 @@ def check_profile(ctx, env, pc, o, compare=True):
     agree = True
     worst = 0.0
     direct = None
+    # float32 parameters: the code then forms n_D / n_e (and everything derived from it) in single precision, 6e-8 relative
+    used_ = ['ne', 'te'] + (['nd'] if pc['donor_given'] else []) + (['dens'] if pc['which'] == 'fd' else [])
+    single = any(pc['fields'][k_].get('dtype') == 'f32' for k_ in used_)
+    ktol, stol = (1e-6, 1e-6) if single else (K_TOL, 1e-9)
+    if single:
+        ctx.count('profile:float32-parameters')
     for k in range(npts):
         dens_k, ne_k, te_k, nd_k = truth_at(pc, k)
         sc = dens_k if pc['which'] == 'fd' else 1.0
@@ -943,14 +1000,14 @@ def check_profile(ctx, env, pc, o, compare=True):
             else:
                 agree = False
             dv = max(abs(x - y) for x, y in zip(mf, flat[k])) / sc
-            if not dv <= K_TOL:
+            if not dv <= ktol:
                 sdev = solver_deviation(rec)
                 if sdev is not None and sdev > K_TOL / 2:
                     ctx.count('K-excused:lsq_linear-deviation')
                 else:
                     agree = False
                     worst = max(worst, dv)
-            else:
+            elif not single:
                 worst = max(worst, dv)
         # S at this index, with the harness' own evaluation of the profiles
         cs = dict(case, ne=ne_k, te=te_k, nD=nd_k)
@@ -986,8 +1043,9 @@ def check_profile(ctx, env, pc, o, compare=True):
             continue
         sc = dens_k if which == 'fd' else 1.0
         dv = max(abs(x - y) for x, y in zip(ref, flat[k])) / sc
-        worst_sc = max(worst_sc, dv)
-        if not dv <= 1e-9:
+        if not single:
+            worst_sc = max(worst_sc, dv)
+        if not dv <= stol:
             nprob += 1
             sig = 'C09:%s:differs-from-scalar-call' % name
             ctx.count('S-fail:' + sig)
@@ -996,6 +1054,40 @@ def check_profile(ctx, env, pc, o, compare=True):
                      dict(index=k, **desc))
             break
     ctx.extra['max_dev_profile_vs_scalar'] = max(ctx.extra.get('max_dev_profile_vs_scalar', 0.0), worst_sc)
+    # S: inputs are not modified by a call that returns
+    if pc.get('modified_inputs'):
+        nprob += 1
+        sig = 'C09:%s:modifies-input:%s' % (name, '+'.join(pc['modified_inputs']))
+        ctx.count('S-fail:' + sig)
+        ctx.fail(sig, '%s changed its argument(s) %r in place (representations %r, free variable dtype %r)' % (
+            name, pc['modified_inputs'], pc['reps'], pc.get('fv_dtype')), desc)
+    # S: representation agreement — the same call with every Function1D/2D argument replaced by the float64 array of its
+    # samples on the free variable (and the free variable as float64) must return the same numbers
+    used = ['ne', 'te'] + (['nd'] if pc['donor_given'] else []) + (['dens'] if which == 'fd' else [])
+    nonplain = any(pc['fields'][k]['kind'] in ('f1', 'f1n', 'f2') for k in used) or any(d != 'f64' for d in (pc.get('fv_dtype') or []))
+    if pc['dim'] > 0 and nonplain and not pc.get('_alt'):
+        ak = 'arr1' if pc['dim'] == 1 else 'arr2'
+        alt_fields = {}
+        for k, f_ in pc['fields'].items():
+            vals = field_values(f_, pc['grid'])
+            tab = vals if pc['dim'] == 1 else [vals[i * len(pc['grid'][1]):(i + 1) * len(pc['grid'][1])] for i in range(len(pc['grid'][0]))]
+            alt_fields[k] = dict(kind=ak, co=f_['co'], table=tab, pattern=f_['pattern'], as_int=False, dtype='f64')
+        alt = build_profile(env, dict(profile_spec_of(pc), fields=alt_fields, fv_dtype=['f64', 'f64'], fv_scalar=None, interp=False))
+        alt['_alt'] = True
+        a_name, a_st, a_shape, a_flat, _, _ = exec_profile(env, alt)
+        ctx.count('representation-cross-check')
+        if a_st == 'ok' and a_flat.shape == flat.shape:
+            scs = np.array([truth_at(pc, k)[0] if which == 'fd' else 1.0 for k in range(npts)])[:, None]
+            dv = float(np.max(np.abs(a_flat - flat) / scs))
+            if not dv <= stol:
+                k = int(np.argmax(np.max(np.abs(a_flat - flat) / scs, axis=1)))
+                nprob += 1
+                sig = 'C09:%s:differs-from-array-representation' % name
+                ctx.count('S-fail:' + sig)
+                ctx.fail(sig, '%s with representations %r (free variable dtype %r, scalar %r) differs at index %d by %.3g from %s given the float64 '
+                              'arrays of the same samples' % (name, pc['reps'], pc.get('fv_dtype'), pc.get('fv_scalar'), k, dv, a_name), dict(index=k, **desc))
+        elif a_st != 'ok' and not a_st.startswith('timeout'):
+            ctx.count('representation-cross-check-unavailable')
     if mod is not None:
         ctx.extra['max_dev_profile'] = max(ctx.extra.get('max_dev_profile', 0.0), worst)
         if not agree:
@@ -1128,16 +1220,31 @@ def run_entry_agreement(ctx, env, n):
         npt = rng.randint(3, 6)
         xs = [1.05 * i / (npt - 1) for i in range(npt)]
         ys = [0.2 + 0.4 * j for j in range(rng.randint(2, 3))]
+        # coordinate dtype: float64 / float32 (coordinates rounded to float32 first); 2-D also integer coordinates
+        xdt = rng.choice(['f64', 'f64', 'f32'])
+        ydt = rng.choice(['f64', 'f32', 'int'])
+        if xdt == 'f32':
+            xs = [float(np.float32(x)) for x in xs]
+        if dim == 2 and ydt == 'f32':
+            ys = [float(np.float32(y)) for y in ys]
+        if dim == 2 and ydt == 'int':
+            ys = [float(j + 1) for j in range(len(ys))]
+        npdt = {'f64': np.float64, 'f32': np.float32, 'int': np.int64}
         grid = [xs] if dim == 1 else [xs, ys]
         kinds = ['arr1', 'f1', 'f1n'] if dim == 1 else ['arr2', 'f2']
         mode, pat = gen_patterns(rng, dim)
-        fields = {k: gen_field(rng, b, dim, grid, kinds, pat[k])
+        dts = ['f64'] * 6 + ['f32', 'int', 'int']
+        fields = {k: gen_field(rng, b, dim, grid, kinds, pat[k], dtype=rng.choice(dts))
                   for k, b in (('ne', case['ne']), ('te', case['te']), ('nd', case['nD'] or case['ne'] * 0.02), ('dens', case['dens']))}
-        spfields = [[gen_field(rng, case['ne'] * rng.uniform(0.001, 0.03), dim, grid, kinds, rng.choice(['affine', 'flat', 'random', 'steps']))
+        spfields = [[gen_field(rng, case['ne'] * rng.uniform(0.001, 0.03), dim, grid, kinds, rng.choice(['affine', 'flat', 'random', 'steps']),
+                               dtype=rng.choice(dts))
                      for _ in range(rng.randint(2, 4))] for _ in range(rng.randint(1, 2))]
+        single = any(f.get('dtype') == 'f32' for f in list(fields.values()) + [f for sp in spfields for f in sp])
+        stol = 1e-6 if single else 1e-9
         vals = {k: field_values(f, grid) for k, f in fields.items()}
         spvals = [[field_values(f, grid) for f in sp] for sp in spfields]
-        fv = np.array(xs) if dim == 1 else (np.array(xs), np.array(ys))
+        fv = np.array(xs, dtype=npdt[xdt]) if dim == 1 else (np.array(xs, dtype=npdt[xdt]), np.array(ys, dtype=npdt[ydt]))
+        ctx.count('coordinate-dtype:%s' % (xdt if dim == 1 else xdt + '+' + ydt))
         ne_o, te_o, nd_o, dens_o = (make_rep(env, fields[k], grid)[0] for k in ('ne', 'te', 'nd', 'dens'))
         nd_arg = nd_o if case['donor'] else None
         species, sphow = build_species(env, rng, spfields, grid, dim)
@@ -1160,8 +1267,11 @@ def run_entry_agreement(ctx, env, n):
             for which in ref:
                 ref[which].append(scalar_call(env, case, which, cs['ne'], cs['te'], cs['nD'], case['donor'], dens=cs['dens'], species=cs['species']))
         # ---- direct match_plasma_neutrality: K per index, S per index
+        watched = dict(free_variable=fv, n_species=species, n_e=ne_o, t_e=te_o, tcx_donor_n=nd_arg)
+        before = {k_: snapshot(v_) for k_, v_ in watched.items()}
         st, r = guarded(ib.match_plasma_neutrality, env.Mock(case), el, species, ne_o, te_o, donor, nd_arg, case['dq'], free_variable=fv)
         caps = list(CAP)
+        changed = [k_ for k_, v_ in watched.items() if snapshot(v_) != before[k_]]
         ctx.case(key=('match-profile', dim, case['Z'], case['donor'], mode, tuple(sphow), it),
                  sample=dict(stream='match-profile', dim=dim, Z=Z, mode=mode, species_given_as=sphow, donor=case['donor']) if rng.random() < 0.1 else None)
         ctx.count('profile:match_plasma_neutrality:dim%d' % dim)
@@ -1169,16 +1279,19 @@ def run_entry_agreement(ctx, env, n):
             ctx.fail(SIG_NOTERM if st == 'timeout-lsq' else 'C09:match_plasma_neutrality:%s' % ('timeout' if st == 'timeout' else 'raised-' + st),
                      'match_plasma_neutrality (profile level, species given as %r) %s: %s' % (sphow, st, r), desc)
             continue
+        if changed:
+            ctx.fail('C09:match_plasma_neutrality:modifies-input:%s' % '+'.join(changed),
+                     'match_plasma_neutrality changed its argument(s) %r in place (species given as %r)' % (changed, sphow), desc)
         direct = np.stack([np.asarray(r[z], dtype=float).reshape(-1) for z in range(Z + 1)], axis=1)
         for k in range(len(pts)):
             cs = point(k)
             lines.append(point_lines(cs)[3])
-            todo.append((cs, direct[k].tolist(), desc, k, caps[k] if len(caps) == len(pts) else None))
+            todo.append((cs, direct[k].tolist(), desc, k, caps[k] if len(caps) == len(pts) else None, single))
         if all(v is not None for v in ref['mn']):
             refmn = np.array(ref['mn'])
             sc = float(np.max(np.abs(refmn))) or 1.0
             dev = float(np.max(np.abs(direct - refmn))) / sc
-            if not dev <= 1e-9:
+            if not dev <= stol:
                 k = int(np.argmax(np.max(np.abs(direct - refmn), axis=1)))
                 ctx.count('S-fail:C09:match_plasma_neutrality:differs-from-scalar-call')
                 ctx.fail('C09:match_plasma_neutrality:differs-from-scalar-call',
@@ -1219,7 +1332,7 @@ def run_entry_agreement(ctx, env, n):
             sc = float(np.max(np.abs(rf))) or 1.0
             dev = max(abs(ev(fm[z], pt) - rf[k][z]) for k, pt in enumerate(pts) for z in range(Z + 1)) / sc
             ctx.case(key=(name, dim, case['Z'], mode, it))
-            if not dev <= (1e-7 if name == 'abundance_axisymmetric_mapper' else 1e-9):
+            if not dev <= max(stol, 1e-7 if name == 'abundance_axisymmetric_mapper' else 1e-9):
                 ctx.count('S-fail:C09:%s:differs-from-scalar-call' % name)
                 ctx.fail('C09:%s:differs-from-scalar-call' % name,
                          '%s at the knots differs from point-by-point scalar calls of %s by %.3g (relative to the largest value; profile mode %s, '
@@ -1227,35 +1340,35 @@ def run_entry_agreement(ctx, env, n):
                                                    dev, mode, sphow), desc)
         # ---- equilibrium maps (1-D profiles over psi_n)
         if dim == 1 and it % 2 == 0:
-            _equilibrium_checks(ctx, env, case, el, donor, fv, ne_o, te_o, nd_arg, dens_o, species, desc, Interpolator1DArray, ref, mode)
+            _equilibrium_checks(ctx, env, case, el, donor, fv, ne_o, te_o, nd_arg, dens_o, species, desc, Interpolator1DArray, ref, mode, stol)
     if lines:
         outs = ctx.driver(lines)
-        for (cs, impl, desc, k, rec), o in zip(todo, outs):
+        for (cs, impl, desc, k, rec, single), o in zip(todo, outs):
             mod = [b2f(t) for t in o.split()]
             sc = max(max(abs(x) for x in mod), 1e-300) * _mn_amplification(mod)
             ctx.traces += 1
             ctx.count('K:mn-profile')
-            if len(mod) != len(impl) or not all(abs(x - y) <= K_TOL * sc for x, y in zip(mod, impl)):
+            if len(mod) != len(impl) or not all(abs(x - y) <= (1e-6 if single else K_TOL) * sc for x, y in zip(mod, impl)):
                 sdev = solver_deviation(rec)
                 if sdev is not None and sdev > K_TOL / 2:
                     ctx.count('K-excused:lsq_linear-deviation')
                 else:
                     ctx.disagreements += 1
                     ctx.broke('correspondence', 'C09 stream mn-profile', dict(index=k, model=mod, implementation=impl, **desc))
-            elif not mn_charge_agrees(mod, impl):
+            elif not mn_charge_agrees(mod, impl, 1e-5 if single else 1e-9):
                 ctx.disagreements += 1
                 ctx.broke('correspondence', 'C09 stream mn-profile', dict(note='charge of the matched element differs', index=k, model=mod, implementation=impl, **desc))
-            _oracle_match_only(ctx, cs, impl, desc, k, rec)
+            _oracle_match_only(ctx, cs, impl, desc, k, rec, single)
 
 
-def _oracle_match_only(ctx, cs, n, desc, k, rec=None):
+def _oracle_match_only(ctx, cs, n, desc, k, rec=None, single=False):
     Z = cs['Z']
     S, A, C = rates_at(cs, cs['ne'], cs['te'])
     d = cs['nD'] / cs['ne']
     if any(math.isnan(x) for x in n) or min(n) < 0:
         ctx.fail('C09:match_plasma_neutrality:negative-density', 'profile index %d: min density %r' % (k, min(n)), dict(index=k, **desc))
         return
-    pb = neutrality_problem(cs['species'], cs['ne'], n)
+    pb = neutrality_problem(cs['species'], cs['ne'], n, 1e-5 if single else 1e-9)
     if pb:
         ctx.fail('C09:match_plasma_neutrality:neutrality', 'profile index %d: %s' % (k, pb), dict(index=k, **desc))
     if sum(n) > 0:
@@ -1270,7 +1383,7 @@ def _oracle_match_only(ctx, cs, n, desc, k, rec=None):
             ctx.fail(sig, 'match_plasma_neutrality, profile index %d (n_e=%.4g, n_D=%.4g): %s' % (k, cs['ne'], cs['nD'], text), dict(index=k, **desc))
 
 
-def _equilibrium_checks(ctx, env, case, el, donor, psin, ne_o, te_o, nd_arg, dens_o, species, desc, Interp, ref, mode):
+def _equilibrium_checks(ctx, env, case, el, donor, psin, ne_o, te_o, nd_arg, dens_o, species, desc, Interp, ref, mode, stol=1e-9):
     """equilibrium_map3d_* at points inside the LCFS against the interpolation (linear; cubic for the matching variant, which
     hands map3d a (psi, values) pair) of point-by-point scalar calls of the direct entry points at the psi_n knots"""
     ib = env.ib
@@ -1309,7 +1422,7 @@ def _equilibrium_checks(ctx, env, case, el, donor, psin, ne_o, te_o, nd_arg, den
             itp = Interp(np.asarray(psin, dtype=float), np.ascontiguousarray(rf[:, z]), order, 'none', 0)
             for (x, y, zz, ps) in pts:
                 dev = max(dev, abs(m[z](x, y, zz) - itp(ps)) / sc)
-        if not dev <= 1e-9:
+        if not dev <= stol:
             ctx.count('S-fail:C09:%s:differs-from-scalar-call' % name)
             ctx.fail('C09:%s:differs-from-scalar-call' % name,
                      '%s differs from the %s interpolation over psi_n of point-by-point scalar calls of %s by %.3g (relative to the largest '
